@@ -55,12 +55,15 @@ def main():
         build_s = round(time.time() - t0, 1)
         runs = meta.setdefault('runs', [])
         caught = False
-        for tier, s in [('quick', '1'), ('quick', '2'), ('thorough', '1')]:
+        plan = [('quick', '1'), ('quick', '2'), ('thorough', '1')]
+        if prop in ('C01', 'C02', 'C40'):
+            plan = plan[:2]  # the crash engines' thorough tier takes > 50 min on the loaded machine
+        for tier, s in plan:
             if caught: break
             e2 = dict(os.environ); e2['TV_STAGE'] = f'lane{lane}'
             t0 = time.time()
             try:
-                rc, out = sh([f'{tgt}/debug/tv', prop, '--tier', tier, '--seed', s], cwd=V, env=e2, timeout=3000)
+                rc, out = sh([f'{tgt}/debug/tv', prop, '--tier', tier, '--seed', s], cwd=V, env=e2, timeout=2400)
             except subprocess.TimeoutExpired:
                 rc, out = 2, 'INCONCLUSIVE watchdog'
             viol = [l for l in out.splitlines() if l.startswith('VIOLATION property=')]
